@@ -13,7 +13,9 @@ macro_rules! vassume {
         kani::assume($c);
         #[cfg(not(kani))]
         if !($c) {
-            println!("REPLAY-ASSUME-FAILED");
+            if vk::VK_TRACE.load(core::sync::atomic::Ordering::Relaxed) {
+                println!("REPLAY-ASSUME-FAILED");
+            }
             return;
         }
     };
@@ -26,7 +28,7 @@ macro_rules! vcover {
         #[cfg(kani)]
         kani::cover!($c, $m);
         #[cfg(not(kani))]
-        if $c {
+        if vk::VK_TRACE.load(core::sync::atomic::Ordering::Relaxed) && $c {
             println!("REPLAY-COVER {}", $m);
         }
     };
@@ -54,6 +56,22 @@ macro_rules! harness {
     };
 }
 
+
+/// `harness!` with the error-text stubs attached (needs `mod serr` from /verif/hk/serr.rs in scope).
+macro_rules! harness_e {
+    ($name:ident, $n:expr, |$t:ident| $body:block) => {
+        harness!(
+            #[kani::stub(alloc::fmt::format, serr::format)]
+            #[kani::stub(handled::SError::new, serr::serr_new)]
+            #[kani::stub(handled::SError::with_code, serr::serr_with_str)]
+            #[kani::stub(handled::SError::with_message, serr::serr_with_str)]
+            #[kani::stub(handled::SError::with_atom_field, serr::serr_with_atom)]
+            #[kani::stub(handled::SError::with_string_field, serr::serr_with_string)]
+            #[kani::stub(handled::SError::with_debug_field, serr::serr_with_debug)]
+            $name, $n, |$t| $body);
+    };
+}
+
 /// Registry + native replay entry (`cargo test verif_replay` with
 /// VERIF_HARNESS=<name> VERIF_TAPE=<hex>).
 macro_rules! harness_list {
@@ -70,6 +88,41 @@ macro_rules! harness_list {
                 _ => false,
             }
         }
+        /// Development aid (not evidence): random tapes through every harness body natively, to
+        /// find harness/model mistakes before spending solver time.  VERIF_FUZZ=<n> [VERIF_FUZZ_ONLY=<name>]
+        #[cfg(all(test, not(kani)))]
+        #[test]
+        fn verif_fuzz() {
+            let n: u64 = match std::env::var("VERIF_FUZZ") { Ok(n) => n.parse().unwrap(), Err(_) => return };
+            let only = std::env::var("VERIF_FUZZ_ONLY").ok();
+            let names: &[(&str, usize)] = &[ $( (stringify!($name), $name::N) ),* ];
+            let mut x: u64 = 0x9e3779b97f4a7c15;
+            std::panic::set_hook(Box::new(|_| {}));
+            for (name, len) in names {
+                if let Some(o) = &only { if o != name { continue; } }
+                let mut fails = 0;
+                for _ in 0..n {
+                    let mut tape = vec![0u8; *len];
+                    for b in tape.iter_mut() {
+                        x ^= x << 13; x ^= x >> 7; x ^= x << 17;
+                        // bias towards small values so domains of size 4-5 are hit evenly
+                        *b = if x & 0x100 == 0 { (x >> 16) as u8 } else { ((x >> 16) % 6) as u8 };
+                    }
+                    let nm = name.to_string();
+                    let tp = tape.clone();
+                    let r = std::panic::catch_unwind(move || { verif_dispatch(&nm, &tp); });
+                    if let Err(e) = r {
+                        fails += 1;
+                        if fails <= 3 {
+                            let msg = e.downcast_ref::<String>().cloned().or_else(|| e.downcast_ref::<&str>().map(|s| s.to_string())).unwrap_or_default();
+                            let hex: String = tape.iter().map(|b| format!("{:02x}", b)).collect();
+                            eprintln!("FUZZ-FAIL {} tape={} msg={}", name, hex, msg);
+                        }
+                    }
+                }
+                eprintln!("FUZZ {} runs={} fails={}", name, n, fails);
+            }
+        }
         #[cfg(all(test, not(kani)))]
         #[test]
         fn verif_replay() {
@@ -78,6 +131,7 @@ macro_rules! harness_list {
             let tape: Vec<u8> = (0..hex.len() / 2)
                 .map(|i| u8::from_str_radix(&hex[2 * i..2 * i + 2], 16).unwrap())
                 .collect();
+            vk::VK_TRACE.store(true, core::sync::atomic::Ordering::Relaxed);
             println!("REPLAY-BEGIN {}", name);
             if !verif_dispatch(&name, &tape) {
                 println!("REPLAY-UNKNOWN-HARNESS {}", name);
@@ -87,6 +141,10 @@ macro_rules! harness_list {
         }
     };
 }
+
+/// Native only: replay prints cover hits / failed assumptions, the fuzz self-test does not.
+#[cfg(not(kani))]
+pub static VK_TRACE: core::sync::atomic::AtomicBool = core::sync::atomic::AtomicBool::new(false);
 
 /// Tape reader: ordinary code, identical under Kani and natively.
 pub struct Tape<'a> {
